@@ -3,6 +3,7 @@ package main
 import (
 	"fmt"
 	"go/ast"
+	"go/token"
 	"go/types"
 )
 
@@ -116,6 +117,50 @@ func init() {
 				}
 				return true
 			})
+		}
+	}
+}
+
+
+func init() {
+	exploreHooks["asserts"] = func(c *Ctx) {
+		r := NewReport("X", "quick")
+		r.Rule("x", "x", 0)
+		fs := c.entryReach(r, c20Entries...)
+		fmt.Println("reachable", len(fs))
+		for _, f := range fs {
+			for _, as := range AssertionsIn(c, f, f.Decl.Body) {
+				if as.CommaOk {
+					continue
+				}
+				fmt.Printf("%s %s: %s.(%s)\n", c.Pos(as.Node.Pos()), f.Name, types.ExprString(as.X), as.Type)
+			}
+		}
+	}
+}
+
+func init() {
+	exploreHooks["ifaceeq"] = func(c *Ctx) {
+		for _, rel := range libPkgs {
+			for _, f := range c.AllFuncs(rel) {
+				info := f.Info()
+				ast.Inspect(f.Decl.Body, func(n ast.Node) bool {
+					be, ok := n.(*ast.BinaryExpr)
+					if !ok || (be.Op != token.EQL && be.Op != token.NEQ) {
+						return true
+					}
+					tx, ty := info.Types[be.X], info.Types[be.Y]
+					if tx.Type == nil || ty.Type == nil || tx.IsNil() || ty.IsNil() {
+						return true
+					}
+					_, ix := tx.Type.Underlying().(*types.Interface)
+					_, iy := ty.Type.Underlying().(*types.Interface)
+					if ix && iy && tx.Type.String() != "error" && tx.Type.String() != "reflect.Type" {
+						fmt.Printf("%s %s: %s  [%s | %s]\n", c.Pos(be.Pos()), f.Name, types.ExprString(be), tx.Type, ty.Type)
+					}
+					return true
+				})
+			}
 		}
 	}
 }
